@@ -77,6 +77,9 @@ impl Out {
         Out { w: BufWriter::new(File::create(path).expect("cannot create trace file")), n: 0 }
     }
     pub fn ev(&mut self, v: Value) {
+        if v.get("skipped").and_then(|x| x.as_bool()) == Some(true) {
+            return; // a call that was not made (hang budget exhausted)
+        }
         serde_json::to_writer(&mut self.w, &v).unwrap();
         self.w.write_all(b"\n").unwrap();
         self.n += 1;
@@ -137,6 +140,12 @@ pub fn guard<T>(f: impl FnOnce() -> T) -> Result<T, Value> {
 /// Runs f in its own thread (with a large stack) under a deadline.  A thread that does not come
 /// back is abandoned (outcome "timeout"); it dies with the process.
 pub fn guard_deadline<T: Send + 'static>(secs: f64, f: impl FnOnce() -> T + Send + 'static) -> Result<T, Value> {
+    // Hang budget: every abandoned call keeps a core busy and costs a whole deadline.  After HANG_BUDGET calls
+    // that did not return, further guarded calls of this process are not made at all: they yield an event
+    // marked "skipped", which `Out::ev` drops (the timeout events already recorded decide the verdict).
+    if HANGS.load(std::sync::atomic::Ordering::SeqCst) >= HANG_BUDGET {
+        return Err(json!({"outcome": "timeout", "skipped": true, "deadline_s": secs}));
+    }
     let (tx, rx) = mpsc::channel();
     let h = std::thread::Builder::new()
         .stack_size(64 << 20)
@@ -153,9 +162,15 @@ pub fn guard_deadline<T: Send + 'static>(secs: f64, f: impl FnOnce() -> T + Send
             let _ = h.join();
             r
         }
-        Err(_) => Err(json!({"outcome": "timeout", "deadline_s": secs})),
+        Err(_) => {
+            HANGS.fetch_add(1, std::sync::atomic::Ordering::SeqCst);
+            Err(json!({"outcome": "timeout", "deadline_s": secs}))
+        }
     }
 }
+
+pub static HANGS: std::sync::atomic::AtomicUsize = std::sync::atomic::AtomicUsize::new(0);
+pub const HANG_BUDGET: usize = 4;
 
 pub type Args = HashMap<String, String>;
 
